@@ -171,7 +171,14 @@ Fixpoint drain (fuel : nat) (st : sc) (segs : list bytes) (fin : N) (serr : opti
             let n := Z.to_N adv in
             let st' := {| pend := skipn (N.to_nat n) (pend st); plen := plen st - n;
                           start := start st + n; cap := cap st |} in
-            drain fuel' st' segs fin serr (push tok out)
+            (* a non-empty token is written to the output buffer, then commentReader.Read tests
+               s.Err(): after a read error (not EOF) it returns that error at once and the
+               buffered token is never delivered *)
+            match serr, tok with
+            | Some e, _ :: _ => if e =? 0 then drain fuel' st' segs fin serr (push tok out)
+                                else (out, Err e)
+            | _, _ => drain fuel' st' segs fin serr (push tok out)
+            end
       | Ok More =>
           match serr with
           | Some e => (out, if e =? 0 then Ok tt else Err e)
